@@ -108,6 +108,7 @@ type Env struct {
 
 	steps   []Step
 	envN    int
+	curOp   int
 	orc     *Oracles
 	pktPool []poolPkt
 	ackPool []poolAck
